@@ -258,3 +258,155 @@ Definition spin_rate_stmt3 : Prop :=
   forall p0 p1 p2 p3 p4 p5 p6 p7 p8 q0 q1 q2 q3 q4 q5 q6 q7 q8 : R,
     nthR (f_tensor_det3 q0 q1 q2 q3 q4 q5 q6 q7 q8) 0 <> 0 ->
     is_jacobian 9 9 (fun p => f_spin_rate3_l p [q0; q1; q2; q3; q4; q5; q6; q7; q8]) (fun p => D_spin_rate3_l p [q0; q1; q2; q3; q4; q5; q6; q7; q8]) [p0; p1; p2; p3; p4; p5; p6; p7; p8].
+
+(* st2tost2::dsquare(s(x), C) is the Jacobian of x |-> square(s(x)), s(x) = s0 + C.x *)
+Definition dsquare_chain_stmt1 : Prop :=
+  forall p0 p1 p2 q0 q1 q2 q3 q4 q5 q6 q7 q8 q9 q10 q11 : R,
+    is_jacobian 3 3 (fun p => f_dsquare_chain1_l p [q0; q1; q2; q3; q4; q5; q6; q7; q8; q9; q10; q11]) (fun p => D_dsquare_chain1_l p [q0; q1; q2; q3; q4; q5; q6; q7; q8; q9; q10; q11]) [p0; p1; p2].
+Definition dsquare_chain_stmt2 : Prop :=
+  forall p0 p1 p2 p3 q0 q1 q2 q3 q4 q5 q6 q7 q8 q9 q10 q11 q12 q13 q14 q15 q16 q17 q18 q19 : R,
+    is_jacobian 4 4 (fun p => f_dsquare_chain2_l p [q0; q1; q2; q3; q4; q5; q6; q7; q8; q9; q10; q11; q12; q13; q14; q15; q16; q17; q18; q19]) (fun p => D_dsquare_chain2_l p [q0; q1; q2; q3; q4; q5; q6; q7; q8; q9; q10; q11; q12; q13; q14; q15; q16; q17; q18; q19]) [p0; p1; p2; p3].
+Definition dsquare_chain_stmt3 : Prop :=
+  forall p0 p1 p2 p3 p4 p5 q0 q1 q2 q3 q4 q5 q6 q7 q8 q9 q10 q11 q12 q13 q14 q15 q16 q17 q18 q19 q20 q21 q22 q23 q24 q25 q26 q27 q28 q29 q30 q31 q32 q33 q34 q35 q36 q37 q38 q39 q40 q41 : R,
+    is_jacobian 6 6 (fun p => f_dsquare_chain3_l p [q0; q1; q2; q3; q4; q5; q6; q7; q8; q9; q10; q11; q12; q13; q14; q15; q16; q17; q18; q19; q20; q21; q22; q23; q24; q25; q26; q27; q28; q29; q30; q31; q32; q33; q34; q35; q36; q37; q38; q39; q40; q41]) (fun p => D_dsquare_chain3_l p [q0; q1; q2; q3; q4; q5; q6; q7; q8; q9; q10; q11; q12; q13; q14; q15; q16; q17; q18; q19; q20; q21; q22; q23; q24; q25; q26; q27; q28; q29; q30; q31; q32; q33; q34; q35; q36; q37; q38; q39; q40; q41]) [p0; p1; p2; p3; p4; p5].
+
+(* t2tot2::tpld(W, C) is the Jacobian of x |-> V(x)*W, V(x) = V0 + C.x *)
+Definition tpld_chain_stmt1 : Prop :=
+  forall p0 p1 p2 q0 q1 q2 q3 q4 q5 q6 q7 q8 q9 q10 q11 q12 q13 q14 : R,
+    is_jacobian 3 3 (fun p => f_tpld_chain1_l p [q0; q1; q2; q3; q4; q5; q6; q7; q8; q9; q10; q11; q12; q13; q14]) (fun p => D_tpld_chain1_l p [q0; q1; q2; q3; q4; q5; q6; q7; q8; q9; q10; q11; q12; q13; q14]) [p0; p1; p2].
+Definition tpld_chain_stmt2 : Prop :=
+  forall p0 p1 p2 p3 p4 q0 q1 q2 q3 q4 q5 q6 q7 q8 q9 q10 q11 q12 q13 q14 q15 q16 q17 q18 q19 q20 q21 q22 q23 q24 q25 q26 q27 q28 q29 q30 q31 q32 q33 q34 : R,
+    is_jacobian 5 5 (fun p => f_tpld_chain2_l p [q0; q1; q2; q3; q4; q5; q6; q7; q8; q9; q10; q11; q12; q13; q14; q15; q16; q17; q18; q19; q20; q21; q22; q23; q24; q25; q26; q27; q28; q29; q30; q31; q32; q33; q34]) (fun p => D_tpld_chain2_l p [q0; q1; q2; q3; q4; q5; q6; q7; q8; q9; q10; q11; q12; q13; q14; q15; q16; q17; q18; q19; q20; q21; q22; q23; q24; q25; q26; q27; q28; q29; q30; q31; q32; q33; q34]) [p0; p1; p2; p3; p4].
+Definition tpld_chain_stmt3 : Prop :=
+  forall p0 p1 p2 p3 p4 p5 p6 p7 p8 q0 q1 q2 q3 q4 q5 q6 q7 q8 q9 q10 q11 q12 q13 q14 q15 q16 q17 q18 q19 q20 q21 q22 q23 q24 q25 q26 q27 q28 q29 q30 q31 q32 q33 q34 q35 q36 q37 q38 q39 q40 q41 q42 q43 q44 q45 q46 q47 q48 q49 q50 q51 q52 q53 q54 q55 q56 q57 q58 q59 q60 q61 q62 q63 q64 q65 q66 q67 q68 q69 q70 q71 q72 q73 q74 q75 q76 q77 q78 q79 q80 q81 q82 q83 q84 q85 q86 q87 q88 q89 q90 q91 q92 q93 q94 q95 q96 q97 q98 : R,
+    is_jacobian 9 9 (fun p => f_tpld_chain3_l p [q0; q1; q2; q3; q4; q5; q6; q7; q8; q9; q10; q11; q12; q13; q14; q15; q16; q17; q18; q19; q20; q21; q22; q23; q24; q25; q26; q27; q28; q29; q30; q31; q32; q33; q34; q35; q36; q37; q38; q39; q40; q41; q42; q43; q44; q45; q46; q47; q48; q49; q50; q51; q52; q53; q54; q55; q56; q57; q58; q59; q60; q61; q62; q63; q64; q65; q66; q67; q68; q69; q70; q71; q72; q73; q74; q75; q76; q77; q78; q79; q80; q81; q82; q83; q84; q85; q86; q87; q88; q89; q90; q91; q92; q93; q94; q95; q96; q97; q98]) (fun p => D_tpld_chain3_l p [q0; q1; q2; q3; q4; q5; q6; q7; q8; q9; q10; q11; q12; q13; q14; q15; q16; q17; q18; q19; q20; q21; q22; q23; q24; q25; q26; q27; q28; q29; q30; q31; q32; q33; q34; q35; q36; q37; q38; q39; q40; q41; q42; q43; q44; q45; q46; q47; q48; q49; q50; q51; q52; q53; q54; q55; q56; q57; q58; q59; q60; q61; q62; q63; q64; q65; q66; q67; q68; q69; q70; q71; q72; q73; q74; q75; q76; q77; q78; q79; q80; q81; q82; q83; q84; q85; q86; q87; q88; q89; q90; q91; q92; q93; q94; q95; q96; q97; q98]) [p0; p1; p2; p3; p4; p5; p6; p7; p8].
+
+(* t2tot2::tprd(W, C) is the Jacobian of x |-> W*V(x), V(x) = V0 + C.x *)
+Definition tprd_chain_stmt1 : Prop :=
+  forall p0 p1 p2 q0 q1 q2 q3 q4 q5 q6 q7 q8 q9 q10 q11 q12 q13 q14 : R,
+    is_jacobian 3 3 (fun p => f_tprd_chain1_l p [q0; q1; q2; q3; q4; q5; q6; q7; q8; q9; q10; q11; q12; q13; q14]) (fun p => D_tprd_chain1_l p [q0; q1; q2; q3; q4; q5; q6; q7; q8; q9; q10; q11; q12; q13; q14]) [p0; p1; p2].
+Definition tprd_chain_stmt2 : Prop :=
+  forall p0 p1 p2 p3 p4 q0 q1 q2 q3 q4 q5 q6 q7 q8 q9 q10 q11 q12 q13 q14 q15 q16 q17 q18 q19 q20 q21 q22 q23 q24 q25 q26 q27 q28 q29 q30 q31 q32 q33 q34 : R,
+    is_jacobian 5 5 (fun p => f_tprd_chain2_l p [q0; q1; q2; q3; q4; q5; q6; q7; q8; q9; q10; q11; q12; q13; q14; q15; q16; q17; q18; q19; q20; q21; q22; q23; q24; q25; q26; q27; q28; q29; q30; q31; q32; q33; q34]) (fun p => D_tprd_chain2_l p [q0; q1; q2; q3; q4; q5; q6; q7; q8; q9; q10; q11; q12; q13; q14; q15; q16; q17; q18; q19; q20; q21; q22; q23; q24; q25; q26; q27; q28; q29; q30; q31; q32; q33; q34]) [p0; p1; p2; p3; p4].
+Definition tprd_chain_stmt3 : Prop :=
+  forall p0 p1 p2 p3 p4 p5 p6 p7 p8 q0 q1 q2 q3 q4 q5 q6 q7 q8 q9 q10 q11 q12 q13 q14 q15 q16 q17 q18 q19 q20 q21 q22 q23 q24 q25 q26 q27 q28 q29 q30 q31 q32 q33 q34 q35 q36 q37 q38 q39 q40 q41 q42 q43 q44 q45 q46 q47 q48 q49 q50 q51 q52 q53 q54 q55 q56 q57 q58 q59 q60 q61 q62 q63 q64 q65 q66 q67 q68 q69 q70 q71 q72 q73 q74 q75 q76 q77 q78 q79 q80 q81 q82 q83 q84 q85 q86 q87 q88 q89 q90 q91 q92 q93 q94 q95 q96 q97 q98 : R,
+    is_jacobian 9 9 (fun p => f_tprd_chain3_l p [q0; q1; q2; q3; q4; q5; q6; q7; q8; q9; q10; q11; q12; q13; q14; q15; q16; q17; q18; q19; q20; q21; q22; q23; q24; q25; q26; q27; q28; q29; q30; q31; q32; q33; q34; q35; q36; q37; q38; q39; q40; q41; q42; q43; q44; q45; q46; q47; q48; q49; q50; q51; q52; q53; q54; q55; q56; q57; q58; q59; q60; q61; q62; q63; q64; q65; q66; q67; q68; q69; q70; q71; q72; q73; q74; q75; q76; q77; q78; q79; q80; q81; q82; q83; q84; q85; q86; q87; q88; q89; q90; q91; q92; q93; q94; q95; q96; q97; q98]) (fun p => D_tprd_chain3_l p [q0; q1; q2; q3; q4; q5; q6; q7; q8; q9; q10; q11; q12; q13; q14; q15; q16; q17; q18; q19; q20; q21; q22; q23; q24; q25; q26; q27; q28; q29; q30; q31; q32; q33; q34; q35; q36; q37; q38; q39; q40; q41; q42; q43; q44; q45; q46; q47; q48; q49; q50; q51; q52; q53; q54; q55; q56; q57; q58; q59; q60; q61; q62; q63; q64; q65; q66; q67; q68; q69; q70; q71; q72; q73; q74; q75; q76; q77; q78; q79; q80; q81; q82; q83; q84; q85; q86; q87; q88; q89; q90; q91; q92; q93; q94; q95; q96; q97; q98]) [p0; p1; p2; p3; p4; p5; p6; p7; p8].
+
+(* st2tot2::tpld(w, C) is the Jacobian of x |-> v(x)*w, v(x) = v0 + C.x (symmetric tensors) *)
+Definition st2tot2_tpld_chain_stmt1 : Prop :=
+  forall p0 p1 p2 q0 q1 q2 q3 q4 q5 q6 q7 q8 q9 q10 q11 q12 q13 q14 : R,
+    is_jacobian 3 3 (fun p => f_st2tot2_tpld_chain1_l p [q0; q1; q2; q3; q4; q5; q6; q7; q8; q9; q10; q11; q12; q13; q14]) (fun p => D_st2tot2_tpld_chain1_l p [q0; q1; q2; q3; q4; q5; q6; q7; q8; q9; q10; q11; q12; q13; q14]) [p0; p1; p2].
+Definition st2tot2_tpld_chain_stmt2 : Prop :=
+  forall p0 p1 p2 p3 q0 q1 q2 q3 q4 q5 q6 q7 q8 q9 q10 q11 q12 q13 q14 q15 q16 q17 q18 q19 q20 q21 q22 q23 : R,
+    is_jacobian 4 5 (fun p => f_st2tot2_tpld_chain2_l p [q0; q1; q2; q3; q4; q5; q6; q7; q8; q9; q10; q11; q12; q13; q14; q15; q16; q17; q18; q19; q20; q21; q22; q23]) (fun p => D_st2tot2_tpld_chain2_l p [q0; q1; q2; q3; q4; q5; q6; q7; q8; q9; q10; q11; q12; q13; q14; q15; q16; q17; q18; q19; q20; q21; q22; q23]) [p0; p1; p2; p3].
+Definition st2tot2_tpld_chain_stmt3 : Prop :=
+  forall p0 p1 p2 p3 p4 p5 q0 q1 q2 q3 q4 q5 q6 q7 q8 q9 q10 q11 q12 q13 q14 q15 q16 q17 q18 q19 q20 q21 q22 q23 q24 q25 q26 q27 q28 q29 q30 q31 q32 q33 q34 q35 q36 q37 q38 q39 q40 q41 q42 q43 q44 q45 q46 q47 : R,
+    is_jacobian 6 9 (fun p => f_st2tot2_tpld_chain3_l p [q0; q1; q2; q3; q4; q5; q6; q7; q8; q9; q10; q11; q12; q13; q14; q15; q16; q17; q18; q19; q20; q21; q22; q23; q24; q25; q26; q27; q28; q29; q30; q31; q32; q33; q34; q35; q36; q37; q38; q39; q40; q41; q42; q43; q44; q45; q46; q47]) (fun p => D_st2tot2_tpld_chain3_l p [q0; q1; q2; q3; q4; q5; q6; q7; q8; q9; q10; q11; q12; q13; q14; q15; q16; q17; q18; q19; q20; q21; q22; q23; q24; q25; q26; q27; q28; q29; q30; q31; q32; q33; q34; q35; q36; q37; q38; q39; q40; q41; q42; q43; q44; q45; q46; q47]) [p0; p1; p2; p3; p4; p5].
+
+(* st2tot2::tprd(w, C) is the Jacobian of x |-> w*v(x), v(x) = v0 + C.x (symmetric tensors) *)
+Definition st2tot2_tprd_chain_stmt1 : Prop :=
+  forall p0 p1 p2 q0 q1 q2 q3 q4 q5 q6 q7 q8 q9 q10 q11 q12 q13 q14 : R,
+    is_jacobian 3 3 (fun p => f_st2tot2_tprd_chain1_l p [q0; q1; q2; q3; q4; q5; q6; q7; q8; q9; q10; q11; q12; q13; q14]) (fun p => D_st2tot2_tprd_chain1_l p [q0; q1; q2; q3; q4; q5; q6; q7; q8; q9; q10; q11; q12; q13; q14]) [p0; p1; p2].
+Definition st2tot2_tprd_chain_stmt2 : Prop :=
+  forall p0 p1 p2 p3 q0 q1 q2 q3 q4 q5 q6 q7 q8 q9 q10 q11 q12 q13 q14 q15 q16 q17 q18 q19 q20 q21 q22 q23 : R,
+    is_jacobian 4 5 (fun p => f_st2tot2_tprd_chain2_l p [q0; q1; q2; q3; q4; q5; q6; q7; q8; q9; q10; q11; q12; q13; q14; q15; q16; q17; q18; q19; q20; q21; q22; q23]) (fun p => D_st2tot2_tprd_chain2_l p [q0; q1; q2; q3; q4; q5; q6; q7; q8; q9; q10; q11; q12; q13; q14; q15; q16; q17; q18; q19; q20; q21; q22; q23]) [p0; p1; p2; p3].
+Definition st2tot2_tprd_chain_stmt3 : Prop :=
+  forall p0 p1 p2 p3 p4 p5 q0 q1 q2 q3 q4 q5 q6 q7 q8 q9 q10 q11 q12 q13 q14 q15 q16 q17 q18 q19 q20 q21 q22 q23 q24 q25 q26 q27 q28 q29 q30 q31 q32 q33 q34 q35 q36 q37 q38 q39 q40 q41 q42 q43 q44 q45 q46 q47 : R,
+    is_jacobian 6 9 (fun p => f_st2tot2_tprd_chain3_l p [q0; q1; q2; q3; q4; q5; q6; q7; q8; q9; q10; q11; q12; q13; q14; q15; q16; q17; q18; q19; q20; q21; q22; q23; q24; q25; q26; q27; q28; q29; q30; q31; q32; q33; q34; q35; q36; q37; q38; q39; q40; q41; q42; q43; q44; q45; q46; q47]) (fun p => D_st2tot2_tprd_chain3_l p [q0; q1; q2; q3; q4; q5; q6; q7; q8; q9; q10; q11; q12; q13; q14; q15; q16; q17; q18; q19; q20; q21; q22; q23; q24; q25; q26; q27; q28; q29; q30; q31; q32; q33; q34; q35; q36; q37; q38; q39; q40; q41; q42; q43; q44; q45; q46; q47]) [p0; p1; p2; p3; p4; p5].
+
+(* computePushForwardDerivative(st2tost2&, F) is the Jacobian of S |-> push_forward(S, F) = F.S.F^T *)
+Definition push_forward_dS_stmt1 : Prop :=
+  forall p0 p1 p2 q0 q1 q2 : R,
+    is_jacobian 3 3 (fun p => f_push_forward_dS1_l p [q0; q1; q2]) (fun p => D_push_forward_dS1_l p [q0; q1; q2]) [p0; p1; p2].
+Definition push_forward_dS_stmt2 : Prop :=
+  forall p0 p1 p2 p3 q0 q1 q2 q3 q4 : R,
+    is_jacobian 4 4 (fun p => f_push_forward_dS2_l p [q0; q1; q2; q3; q4]) (fun p => D_push_forward_dS2_l p [q0; q1; q2; q3; q4]) [p0; p1; p2; p3].
+Definition push_forward_dS_stmt3 : Prop :=
+  forall p0 p1 p2 p3 p4 p5 q0 q1 q2 q3 q4 q5 q6 q7 q8 : R,
+    is_jacobian 6 6 (fun p => f_push_forward_dS3_l p [q0; q1; q2; q3; q4; q5; q6; q7; q8]) (fun p => D_push_forward_dS3_l p [q0; q1; q2; q3; q4; q5; q6; q7; q8]) [p0; p1; p2; p3; p4; p5].
+
+(* computePushForwardDerivativeWithRespectToDeformationGradient(S, F) is the Jacobian of F |-> F.S.F^T *)
+Definition push_forward_dF_stmt1 : Prop :=
+  forall p0 p1 p2 q0 q1 q2 : R,
+    is_jacobian 3 3 (fun p => f_push_forward_dF1_l p [q0; q1; q2]) (fun p => D_push_forward_dF1_l p [q0; q1; q2]) [p0; p1; p2].
+Definition push_forward_dF_stmt2 : Prop :=
+  forall p0 p1 p2 p3 p4 q0 q1 q2 q3 : R,
+    is_jacobian 5 4 (fun p => f_push_forward_dF2_l p [q0; q1; q2; q3]) (fun p => D_push_forward_dF2_l p [q0; q1; q2; q3]) [p0; p1; p2; p3; p4].
+Definition push_forward_dF_stmt3 : Prop :=
+  forall p0 p1 p2 p3 p4 p5 p6 p7 p8 q0 q1 q2 q3 q4 q5 : R,
+    is_jacobian 9 6 (fun p => f_push_forward_dF3_l p [q0; q1; q2; q3; q4; q5]) (fun p => D_push_forward_dF3_l p [q0; q1; q2; q3; q4; q5]) [p0; p1; p2; p3; p4; p5; p6; p7; p8].
+
+(* computePushForwardDerivative(dS/dF, S(F), F) is the Jacobian of F |-> F.S(F).F^T, S(F) = S0 + X.F *)
+Definition push_forward_chain_stmt1 : Prop :=
+  forall p0 p1 p2 q0 q1 q2 q3 q4 q5 q6 q7 q8 q9 q10 q11 : R,
+    is_jacobian 3 3 (fun p => f_push_forward_chain1_l p [q0; q1; q2; q3; q4; q5; q6; q7; q8; q9; q10; q11]) (fun p => D_push_forward_chain1_l p [q0; q1; q2; q3; q4; q5; q6; q7; q8; q9; q10; q11]) [p0; p1; p2].
+Definition push_forward_chain_stmt2 : Prop :=
+  forall p0 p1 p2 p3 p4 q0 q1 q2 q3 q4 q5 q6 q7 q8 q9 q10 q11 q12 q13 q14 q15 q16 q17 q18 q19 q20 q21 q22 q23 : R,
+    is_jacobian 5 4 (fun p => f_push_forward_chain2_l p [q0; q1; q2; q3; q4; q5; q6; q7; q8; q9; q10; q11; q12; q13; q14; q15; q16; q17; q18; q19; q20; q21; q22; q23]) (fun p => D_push_forward_chain2_l p [q0; q1; q2; q3; q4; q5; q6; q7; q8; q9; q10; q11; q12; q13; q14; q15; q16; q17; q18; q19; q20; q21; q22; q23]) [p0; p1; p2; p3; p4].
+Definition push_forward_chain_stmt3 : Prop :=
+  forall p0 p1 p2 p3 p4 p5 p6 p7 p8 q0 q1 q2 q3 q4 q5 q6 q7 q8 q9 q10 q11 q12 q13 q14 q15 q16 q17 q18 q19 q20 q21 q22 q23 q24 q25 q26 q27 q28 q29 q30 q31 q32 q33 q34 q35 q36 q37 q38 q39 q40 q41 q42 q43 q44 q45 q46 q47 q48 q49 q50 q51 q52 q53 q54 q55 q56 q57 q58 q59 : R,
+    is_jacobian 9 6 (fun p => f_push_forward_chain3_l p [q0; q1; q2; q3; q4; q5; q6; q7; q8; q9; q10; q11; q12; q13; q14; q15; q16; q17; q18; q19; q20; q21; q22; q23; q24; q25; q26; q27; q28; q29; q30; q31; q32; q33; q34; q35; q36; q37; q38; q39; q40; q41; q42; q43; q44; q45; q46; q47; q48; q49; q50; q51; q52; q53; q54; q55; q56; q57; q58; q59]) (fun p => D_push_forward_chain3_l p [q0; q1; q2; q3; q4; q5; q6; q7; q8; q9; q10; q11; q12; q13; q14; q15; q16; q17; q18; q19; q20; q21; q22; q23; q24; q25; q26; q27; q28; q29; q30; q31; q32; q33; q34; q35; q36; q37; q38; q39; q40; q41; q42; q43; q44; q45; q46; q47; q48; q49; q50; q51; q52; q53; q54; q55; q56; q57; q58; q59]) [p0; p1; p2; p3; p4; p5; p6; p7; p8].
+
+(* computeKirchhoffStressDerivativeFromCauchyStressDerivative(ds, s(F), F) is the Jacobian of F |-> det(F) s(F), s(F) = s0 + X.F *)
+Definition kirchhoff_from_cauchy_stmt1 : Prop :=
+  forall p0 p1 p2 q0 q1 q2 q3 q4 q5 q6 q7 q8 q9 q10 q11 : R,
+    is_jacobian 3 3 (fun p => f_kirchhoff_from_cauchy1_l p [q0; q1; q2; q3; q4; q5; q6; q7; q8; q9; q10; q11]) (fun p => D_kirchhoff_from_cauchy1_l p [q0; q1; q2; q3; q4; q5; q6; q7; q8; q9; q10; q11]) [p0; p1; p2].
+Definition kirchhoff_from_cauchy_stmt2 : Prop :=
+  forall p0 p1 p2 p3 p4 q0 q1 q2 q3 q4 q5 q6 q7 q8 q9 q10 q11 q12 q13 q14 q15 q16 q17 q18 q19 q20 q21 q22 q23 : R,
+    is_jacobian 5 4 (fun p => f_kirchhoff_from_cauchy2_l p [q0; q1; q2; q3; q4; q5; q6; q7; q8; q9; q10; q11; q12; q13; q14; q15; q16; q17; q18; q19; q20; q21; q22; q23]) (fun p => D_kirchhoff_from_cauchy2_l p [q0; q1; q2; q3; q4; q5; q6; q7; q8; q9; q10; q11; q12; q13; q14; q15; q16; q17; q18; q19; q20; q21; q22; q23]) [p0; p1; p2; p3; p4].
+Definition kirchhoff_from_cauchy_stmt3 : Prop :=
+  forall p0 p1 p2 p3 p4 p5 p6 p7 p8 q0 q1 q2 q3 q4 q5 q6 q7 q8 q9 q10 q11 q12 q13 q14 q15 q16 q17 q18 q19 q20 q21 q22 q23 q24 q25 q26 q27 q28 q29 q30 q31 q32 q33 q34 q35 q36 q37 q38 q39 q40 q41 q42 q43 q44 q45 q46 q47 q48 q49 q50 q51 q52 q53 q54 q55 q56 q57 q58 q59 : R,
+    is_jacobian 9 6 (fun p => f_kirchhoff_from_cauchy3_l p [q0; q1; q2; q3; q4; q5; q6; q7; q8; q9; q10; q11; q12; q13; q14; q15; q16; q17; q18; q19; q20; q21; q22; q23; q24; q25; q26; q27; q28; q29; q30; q31; q32; q33; q34; q35; q36; q37; q38; q39; q40; q41; q42; q43; q44; q45; q46; q47; q48; q49; q50; q51; q52; q53; q54; q55; q56; q57; q58; q59]) (fun p => D_kirchhoff_from_cauchy3_l p [q0; q1; q2; q3; q4; q5; q6; q7; q8; q9; q10; q11; q12; q13; q14; q15; q16; q17; q18; q19; q20; q21; q22; q23; q24; q25; q26; q27; q28; q29; q30; q31; q32; q33; q34; q35; q36; q37; q38; q39; q40; q41; q42; q43; q44; q45; q46; q47; q48; q49; q50; q51; q52; q53; q54; q55; q56; q57; q58; q59]) [p0; p1; p2; p3; p4; p5; p6; p7; p8].
+
+(* computeCauchyStressDerivativeFromKirchhoffStressDerivative(dtau, tau(F)/det F, F) is the Jacobian of F |-> tau(F)/det(F), tau(F) = t0 + X.F (det F <> 0) *)
+Definition cauchy_from_kirchhoff_stmt1 : Prop :=
+  forall p0 p1 p2 q0 q1 q2 q3 q4 q5 q6 q7 q8 q9 q10 q11 : R,
+    nthR (f_tensor_det1 p0 p1 p2) 0 <> 0 ->
+    is_jacobian 3 3 (fun p => f_cauchy_from_kirchhoff1_l p [q0; q1; q2; q3; q4; q5; q6; q7; q8; q9; q10; q11]) (fun p => D_cauchy_from_kirchhoff1_l p [q0; q1; q2; q3; q4; q5; q6; q7; q8; q9; q10; q11]) [p0; p1; p2].
+Definition cauchy_from_kirchhoff_stmt2 : Prop :=
+  forall p0 p1 p2 p3 p4 q0 q1 q2 q3 q4 q5 q6 q7 q8 q9 q10 q11 q12 q13 q14 q15 q16 q17 q18 q19 q20 q21 q22 q23 : R,
+    nthR (f_tensor_det2 p0 p1 p2 p3 p4) 0 <> 0 ->
+    is_jacobian 5 4 (fun p => f_cauchy_from_kirchhoff2_l p [q0; q1; q2; q3; q4; q5; q6; q7; q8; q9; q10; q11; q12; q13; q14; q15; q16; q17; q18; q19; q20; q21; q22; q23]) (fun p => D_cauchy_from_kirchhoff2_l p [q0; q1; q2; q3; q4; q5; q6; q7; q8; q9; q10; q11; q12; q13; q14; q15; q16; q17; q18; q19; q20; q21; q22; q23]) [p0; p1; p2; p3; p4].
+Definition cauchy_from_kirchhoff_stmt3 : Prop :=
+  forall p0 p1 p2 p3 p4 p5 p6 p7 p8 q0 q1 q2 q3 q4 q5 q6 q7 q8 q9 q10 q11 q12 q13 q14 q15 q16 q17 q18 q19 q20 q21 q22 q23 q24 q25 q26 q27 q28 q29 q30 q31 q32 q33 q34 q35 q36 q37 q38 q39 q40 q41 q42 q43 q44 q45 q46 q47 q48 q49 q50 q51 q52 q53 q54 q55 q56 q57 q58 q59 : R,
+    nthR (f_tensor_det3 p0 p1 p2 p3 p4 p5 p6 p7 p8) 0 <> 0 ->
+    is_jacobian 9 6 (fun p => f_cauchy_from_kirchhoff3_l p [q0; q1; q2; q3; q4; q5; q6; q7; q8; q9; q10; q11; q12; q13; q14; q15; q16; q17; q18; q19; q20; q21; q22; q23; q24; q25; q26; q27; q28; q29; q30; q31; q32; q33; q34; q35; q36; q37; q38; q39; q40; q41; q42; q43; q44; q45; q46; q47; q48; q49; q50; q51; q52; q53; q54; q55; q56; q57; q58; q59]) (fun p => D_cauchy_from_kirchhoff3_l p [q0; q1; q2; q3; q4; q5; q6; q7; q8; q9; q10; q11; q12; q13; q14; q15; q16; q17; q18; q19; q20; q21; q22; q23; q24; q25; q26; q27; q28; q29; q30; q31; q32; q33; q34; q35; q36; q37; q38; q39; q40; q41; q42; q43; q44; q45; q46; q47; q48; q49; q50; q51; q52; q53; q54; q55; q56; q57; q58; q59]) [p0; p1; p2; p3; p4; p5; p6; p7; p8].
+
+(* convertCauchyStressDerivativeToFirstPiolaKirchoffStressDerivative(ds, F, s(F)) is the Jacobian of F |-> convertCauchyStressToFirstPiolaKirchhoffStress(s(F), F), s(F) = s0 + X.F *)
+Definition pk1_from_cauchy_stmt1 : Prop :=
+  forall p0 p1 p2 q0 q1 q2 q3 q4 q5 q6 q7 q8 q9 q10 q11 : R,
+    is_jacobian 3 3 (fun p => f_pk1_from_cauchy1_l p [q0; q1; q2; q3; q4; q5; q6; q7; q8; q9; q10; q11]) (fun p => D_pk1_from_cauchy1_l p [q0; q1; q2; q3; q4; q5; q6; q7; q8; q9; q10; q11]) [p0; p1; p2].
+Definition pk1_from_cauchy_stmt2 : Prop :=
+  forall p0 p1 p2 p3 p4 q0 q1 q2 q3 q4 q5 q6 q7 q8 q9 q10 q11 q12 q13 q14 q15 q16 q17 q18 q19 q20 q21 q22 q23 : R,
+    is_jacobian 5 5 (fun p => f_pk1_from_cauchy2_l p [q0; q1; q2; q3; q4; q5; q6; q7; q8; q9; q10; q11; q12; q13; q14; q15; q16; q17; q18; q19; q20; q21; q22; q23]) (fun p => D_pk1_from_cauchy2_l p [q0; q1; q2; q3; q4; q5; q6; q7; q8; q9; q10; q11; q12; q13; q14; q15; q16; q17; q18; q19; q20; q21; q22; q23]) [p0; p1; p2; p3; p4].
+Definition pk1_from_cauchy_stmt3 : Prop :=
+  forall p0 p1 p2 p3 p4 p5 p6 p7 p8 q0 q1 q2 q3 q4 q5 q6 q7 q8 q9 q10 q11 q12 q13 q14 q15 q16 q17 q18 q19 q20 q21 q22 q23 q24 q25 q26 q27 q28 q29 q30 q31 q32 q33 q34 q35 q36 q37 q38 q39 q40 q41 q42 q43 q44 q45 q46 q47 q48 q49 q50 q51 q52 q53 q54 q55 q56 q57 q58 q59 : R,
+    is_jacobian 9 9 (fun p => f_pk1_from_cauchy3_l p [q0; q1; q2; q3; q4; q5; q6; q7; q8; q9; q10; q11; q12; q13; q14; q15; q16; q17; q18; q19; q20; q21; q22; q23; q24; q25; q26; q27; q28; q29; q30; q31; q32; q33; q34; q35; q36; q37; q38; q39; q40; q41; q42; q43; q44; q45; q46; q47; q48; q49; q50; q51; q52; q53; q54; q55; q56; q57; q58; q59]) (fun p => D_pk1_from_cauchy3_l p [q0; q1; q2; q3; q4; q5; q6; q7; q8; q9; q10; q11; q12; q13; q14; q15; q16; q17; q18; q19; q20; q21; q22; q23; q24; q25; q26; q27; q28; q29; q30; q31; q32; q33; q34; q35; q36; q37; q38; q39; q40; q41; q42; q43; q44; q45; q46; q47; q48; q49; q50; q51; q52; q53; q54; q55; q56; q57; q58; q59]) [p0; p1; p2; p3; p4; p5; p6; p7; p8].
+
+(* convertSecondPiolaKirchhoffStressDerivativeToFirstPiolaKirchoffStressDerivative(dS/dE, F, sigma(F)) is the Jacobian of F |-> P(F) = F.S(F), S(F) = S0 + X.E_GL(F), through the conversions of /repo (det F <> 0) *)
+Definition pk1_from_pk2_stmt1 : Prop :=
+  forall p0 p1 p2 q0 q1 q2 q3 q4 q5 q6 q7 q8 q9 q10 q11 : R,
+    nthR (f_tensor_det1 p0 p1 p2) 0 <> 0 ->
+    is_jacobian 3 3 (fun p => f_pk1_from_pk21_l p [q0; q1; q2; q3; q4; q5; q6; q7; q8; q9; q10; q11]) (fun p => D_pk1_from_pk21_l p [q0; q1; q2; q3; q4; q5; q6; q7; q8; q9; q10; q11]) [p0; p1; p2].
+Definition pk1_from_pk2_stmt2 : Prop :=
+  forall p0 p1 p2 p3 p4 q0 q1 q2 q3 q4 q5 q6 q7 q8 q9 q10 q11 q12 q13 q14 q15 q16 q17 q18 q19 : R,
+    nthR (f_tensor_det2 p0 p1 p2 p3 p4) 0 <> 0 ->
+    is_jacobian 5 5 (fun p => f_pk1_from_pk22_l p [q0; q1; q2; q3; q4; q5; q6; q7; q8; q9; q10; q11; q12; q13; q14; q15; q16; q17; q18; q19]) (fun p => D_pk1_from_pk22_l p [q0; q1; q2; q3; q4; q5; q6; q7; q8; q9; q10; q11; q12; q13; q14; q15; q16; q17; q18; q19]) [p0; p1; p2; p3; p4].
+Definition pk1_from_pk2_stmt3 : Prop :=
+  forall p0 p1 p2 p3 p4 p5 p6 p7 p8 q0 q1 q2 q3 q4 q5 q6 q7 q8 q9 q10 q11 q12 q13 q14 q15 q16 q17 q18 q19 q20 q21 q22 q23 q24 q25 q26 q27 q28 q29 q30 q31 q32 q33 q34 q35 q36 q37 q38 q39 q40 q41 : R,
+    nthR (f_tensor_det3 p0 p1 p2 p3 p4 p5 p6 p7 p8) 0 <> 0 ->
+    is_jacobian 9 9 (fun p => f_pk1_from_pk23_l p [q0; q1; q2; q3; q4; q5; q6; q7; q8; q9; q10; q11; q12; q13; q14; q15; q16; q17; q18; q19; q20; q21; q22; q23; q24; q25; q26; q27; q28; q29; q30; q31; q32; q33; q34; q35; q36; q37; q38; q39; q40; q41]) (fun p => D_pk1_from_pk23_l p [q0; q1; q2; q3; q4; q5; q6; q7; q8; q9; q10; q11; q12; q13; q14; q15; q16; q17; q18; q19; q20; q21; q22; q23; q24; q25; q26; q27; q28; q29; q30; q31; q32; q33; q34; q35; q36; q37; q38; q39; q40; q41]) [p0; p1; p2; p3; p4; p5; p6; p7; p8].
+
+(* convertFirstPiolaKirchoffStressDerivativeToKirchhoffStressDerivative(dP, F0, s0) is the Jacobian at F0 of F |-> det(F) convertFirstPiolaKirchhoffStressToCauchyStress(P(F), F), P(F) = P(s0, F0) + X.(F - F0) (det F0 <> 0) *)
+Definition tau_from_pk1_stmt1 : Prop :=
+  forall p0 p1 p2 q0 q1 q2 q3 q4 q5 q6 q7 q8 q9 q10 q11 : R,
+    nthR (f_tensor_det1 p0 p1 p2) 0 <> 0 ->
+    is_jacobian 3 3 (fun p => f_tau_from_pk11_l p [q0; q1; q2; q3; q4; q5; q6; q7; q8; q9; q10; q11; p0; p1; p2]) (fun p => D_tau_from_pk11_l p [q0; q1; q2; q3; q4; q5; q6; q7; q8; q9; q10; q11; p0; p1; p2]) [p0; p1; p2].
+Definition tau_from_pk1_stmt2 : Prop :=
+  forall p0 p1 p2 p3 p4 q0 q1 q2 q3 q4 q5 q6 q7 q8 q9 q10 q11 q12 q13 q14 q15 q16 q17 q18 q19 q20 q21 q22 q23 q24 q25 q26 q27 q28 : R,
+    nthR (f_tensor_det2 p0 p1 p2 p3 p4) 0 <> 0 ->
+    is_jacobian 5 4 (fun p => f_tau_from_pk12_l p [q0; q1; q2; q3; q4; q5; q6; q7; q8; q9; q10; q11; q12; q13; q14; q15; q16; q17; q18; q19; q20; q21; q22; q23; q24; q25; q26; q27; q28; p0; p1; p2; p3; p4]) (fun p => D_tau_from_pk12_l p [q0; q1; q2; q3; q4; q5; q6; q7; q8; q9; q10; q11; q12; q13; q14; q15; q16; q17; q18; q19; q20; q21; q22; q23; q24; q25; q26; q27; q28; p0; p1; p2; p3; p4]) [p0; p1; p2; p3; p4].
+Definition tau_from_pk1_stmt3 : Prop :=
+  forall p0 p1 p2 p3 p4 p5 p6 p7 p8 q0 q1 q2 q3 q4 q5 q6 q7 q8 q9 q10 q11 q12 q13 q14 q15 q16 q17 q18 q19 q20 q21 q22 q23 q24 q25 q26 q27 q28 q29 q30 q31 q32 q33 q34 q35 q36 q37 q38 q39 q40 q41 q42 q43 q44 q45 q46 q47 q48 q49 q50 q51 q52 q53 q54 q55 q56 q57 q58 q59 q60 q61 q62 q63 q64 q65 q66 q67 q68 q69 q70 q71 q72 q73 q74 q75 q76 q77 q78 q79 q80 q81 q82 q83 q84 q85 q86 : R,
+    nthR (f_tensor_det3 p0 p1 p2 p3 p4 p5 p6 p7 p8) 0 <> 0 ->
+    is_jacobian 9 6 (fun p => f_tau_from_pk13_l p [q0; q1; q2; q3; q4; q5; q6; q7; q8; q9; q10; q11; q12; q13; q14; q15; q16; q17; q18; q19; q20; q21; q22; q23; q24; q25; q26; q27; q28; q29; q30; q31; q32; q33; q34; q35; q36; q37; q38; q39; q40; q41; q42; q43; q44; q45; q46; q47; q48; q49; q50; q51; q52; q53; q54; q55; q56; q57; q58; q59; q60; q61; q62; q63; q64; q65; q66; q67; q68; q69; q70; q71; q72; q73; q74; q75; q76; q77; q78; q79; q80; q81; q82; q83; q84; q85; q86; p0; p1; p2; p3; p4; p5; p6; p7; p8]) (fun p => D_tau_from_pk13_l p [q0; q1; q2; q3; q4; q5; q6; q7; q8; q9; q10; q11; q12; q13; q14; q15; q16; q17; q18; q19; q20; q21; q22; q23; q24; q25; q26; q27; q28; q29; q30; q31; q32; q33; q34; q35; q36; q37; q38; q39; q40; q41; q42; q43; q44; q45; q46; q47; q48; q49; q50; q51; q52; q53; q54; q55; q56; q57; q58; q59; q60; q61; q62; q63; q64; q65; q66; q67; q68; q69; q70; q71; q72; q73; q74; q75; q76; q77; q78; q79; q80; q81; q82; q83; q84; q85; q86; p0; p1; p2; p3; p4; p5; p6; p7; p8]) [p0; p1; p2; p3; p4; p5; p6; p7; p8].
